@@ -65,6 +65,7 @@ CHECKS = {
         'level_text': 'every path of the encoded message-consuming functions is explored with all optional elements nil-able; a path ending in a Go panic is a violation; replayed natively.',
         'level_note': SP_ASSERTION_NOTE + FLOW_NOTE,
         'harnesses': [
+            {'name': 'Harness_C09_inflate', 'pkg': 'saml', 'replay': 'direct', 'must_reach': ['read'], 'opts': {'panic_is_violation': True}, 'validate_reach': False},
             {'name': 'Harness_C01_encrypted', 'pkg': 'saml', 'replay': 'direct', 'must_reach': ['accepted', 'rejected', 'accepted-by-inner-signature', 'accepted-by-response-signature'], 'validate_labels': ['accepted-by-inner-signature', 'accepted-by-response-signature', 'rejected'], 'label_prefix': 'C09', 'opts': {'K': 1, 'panic_is_violation': True}},
             {'name': 'Harness_C09_artifact_http', 'pkg': 'saml', 'replay': 'direct', 'must_reach': ['accepted', 'rejected'], 'validate_labels': ['accepted', 'rejected'], 'label_prefix': 'C09', 'opts': {'K': 1, 'panic_is_violation': True}},
             {'name': 'Harness_C04_artifact', 'pkg': 'saml', 'replay': 'direct', 'must_reach': ['accepted', 'rejected'], 'validate_labels': ['accepted'], 'label_prefix': 'C09', 'opts': {'params': {'artifact.layouts': 0}, 'K': 1, 'panic_is_violation': True}},
@@ -160,6 +161,7 @@ CHECKS = {
         'level_text': 'every path of Decrypt over arbitrary EncryptedData/EncryptedKey trees, keys of every admitted Go type and every cipher-value length class is explored with the crypto panic preconditions active; a path ending in a panic is a violation; stripPadding is decided against its specification for every buffer content; replayed natively with the real crypto.',
         'level_note': 'real Decrypt, CBC/GCM/RSA.Decrypt, getCiphertext, validateRSAKeyIfPresent, stripPadding and the etree path code executed from SSA; crypto primitives are uninterpreted with their documented panic preconditions (IV length = block size, input a whole number of blocks, nonce length 12), length laws and the inverse law. Trees: every part optional, algorithm known/unknown/absent, nested EncryptedKey to depth 1 (quick) / 2 (thorough), repeated keys, cipher values of 19 boundary lengths (quick) / every length 0..65 (thorough) or not base64, keys []byte of 0/8/16/24/32/33 bytes, two RSA keys, nil, string. Outside: GCM tamper detection (a property of the AEAD primitive).',
         'harnesses': [
+            {'name': 'Harness_C01_encrypted', 'pkg': 'saml', 'replay': 'direct', 'must_reach': ['accepted', 'rejected'], 'validate_reach': False, 'label_prefix': 'C11', 'opts': {'K': 1, 'panic_is_violation': True}},
             {'name': 'Harness_C11_certmatch', 'pkg': 'xmlenc', 'replay': 'direct', 'must_reach': ['decrypted', 'rejected'], 'opts': {'params': {'rand.mayfail': 0}}},
             {'name': 'Harness_C11_strip', 'pkg': 'xmlenc', 'replay': 'direct', 'must_reach': ['returned', 'stripped'],
              'quick': {'params': {'strip.maxlen': 18}}, 'thorough': {'params': {'strip.maxlen': 34}}},
